@@ -9,15 +9,16 @@
 (* drift: the real code differs from Gene.tla where C20 says nothing (which *)
 (*        of several applicable errors is reported, an ACCEPTED Add that    *)
 (*        rewrites the slice it was called on, the exact depth at which the *)
-(*        "chain too long" panic starts beyond the documented 1000).        *)
+(*        "chain too long" panic starts beyond the documented 1000, which   *)
+(*        of the two errors a rejected SetFeatures reports).                *)
 (***************************************************************************)
 EXTENDS Gene
 
 Trace == ndJsonDeserialize(IOEnv.TRACE)
 VARIABLES l, fails, drift, fkinds, dkinds
-tvars == <<kind, cs, held, spare, last, l, fails, drift, fkinds, dkinds>>
+tvars == <<kind, cs, held, spare, last, glen, l, fails, drift, fkinds, dkinds>>
 
-TInit == kind = "trace" /\ cs = 0 /\ held = <<>> /\ spare = 0 /\ last = NoCall /\ l = 1 /\ fails = <<>> /\ drift = <<>>
+TInit == kind = "trace" /\ cs = 0 /\ held = <<>> /\ spare = 0 /\ last = NoCall /\ glen = 0 /\ l = 1 /\ fails = <<>> /\ drift = <<>>
          /\ fkinds = [k \in {"-"} |-> 0] /\ dkinds = [k \in {"-"} |-> 0]
 
 \* a judgement is a pair <<fails, drifts>> of sequences of strings
@@ -55,6 +56,32 @@ JudgeSet(e) ==
     ELSE J(Fail(e.after = e.before, "rejected SetExons (" \o e.err \o ") changed the previous exon set"),
            Fail(e.err = c \/ e.err \in BuildClasses(e.xs), "SetExons error is '" \o e.err \o "', specification: '" \o c \o "'") \o
            Fail(e.xsafter = e.xs, "SetExons modified its argument slice"))
+
+\* err := g.SetFeatures(xs...) on a real gene.Gene at e.offset.  before/after: Features() read as
+\* <<Start, Len, location id>> before and after the call, beforeids/afterids/xsids: which feature
+\* objects these are; lenbefore, startbefore, endbefore / glen, gstart, gend: Len(), Start(), End().
+JudgeGeneSet(e) ==
+  LET r == SetFeaturesRet(e.before, e.lenbefore, e.xs) IN
+  IF e.panic # "" THEN J(<<"SetFeatures panicked: " \o e.panic>>, <<>>)
+  ELSE IF (e.err = "") # (r.err = "")
+    THEN J(<<"SetFeatures " \o (IF e.err = "" THEN "accepted" ELSE "rejected (" \o e.err \o ")") \o
+             " where the specification says " \o (IF r.err = "" THEN "accepted" ELSE r.err)>>, <<>>)
+  ELSE
+    J((IF r.err = ""
+         THEN Fail(e.after = e.xs /\ e.afterids = e.xsids, "accepted SetFeatures does not hold its arguments as given")
+         ELSE Fail(e.after = e.before /\ e.afterids = e.beforeids /\ e.glen = e.lenbefore
+                   /\ e.gstart = e.startbefore /\ e.gend = e.endbefore,
+                   "a rejected SetFeatures (" \o e.err \o ") changed the gene: " \o
+                   (IF e.after # e.before \/ e.afterids # e.beforeids THEN "Features() differ" ELSE "Features() are intact") \o
+                   (IF e.glen # e.lenbefore \/ e.gstart # e.startbefore \/ e.gend # e.endbefore
+                      THEN ", Start/End/Len moved" ELSE ""))) \o
+      \* the bounds: judged whenever the gene was in agreement with its features before the call
+      \* (always, for a gene that started empty, unless an earlier event already failed)
+      (IF ~GeneAgrees(e.before, e.lenbefore) THEN <<>>
+       ELSE Fail(e.glen = r.len /\ GeneAgrees(r.feats, e.glen) /\ <<e.gstart, e.gend>> = GeneSE(e.offset, r.len),
+                 "gene bounds disagree with its features: Start/End/Len are not Offset, Offset + largest feature end, largest feature end")),
+      Fail(e.err = r.err, "SetFeatures error is '" \o e.err \o "', specification: '" \o r.err \o "'") \o
+      Fail(e.xsafter = e.xs, "SetFeatures modified its argument slice"))
 
 \* a transcript as observed: judged when its exon list is one SetExons can have accepted
 JudgeView(e) ==
@@ -113,6 +140,7 @@ JudgeConv(e) ==
 Judge(e) ==
   CASE e.op = "add" -> JudgeAdd(e)
     [] e.op = "set" -> JudgeSet(e)
+    [] e.op = "gset" -> JudgeGeneSet(e)
     [] e.op = "view" -> JudgeView(e)
     [] e.op = "map" -> JudgeMap(e)
     [] e.op = "conv" -> JudgeConv(e)
@@ -129,7 +157,7 @@ Some(old, new, at) == IF Len(old) >= Keep THEN old ELSE old \o [i \in 1..Len(new
 
 Step ==
   /\ l <= Len(Trace) /\ l' = l + 1
-  /\ UNCHANGED <<kind, cs, held, spare, last>>
+  /\ UNCHANGED <<kind, cs, held, spare, last, glen>>
   /\ LET j == Judge(Trace[l]) IN
      /\ fails' = Some(fails, j[1], l) /\ fkinds' = Bump(fkinds, j[1])
      /\ drift' = Some(drift, j[2], l) /\ dkinds' = Bump(dkinds, j[2])
